@@ -40,7 +40,7 @@ def sep_cases(draw):
     n = draw(st.integers(1, 12))
     rel = [draw(gen.logfloat(1e-6, 1e3)) for _ in range(n)]
     zeros = draw(st.sampled_from([0, 0, 1, 2]))
-    form = draw(st.sampled_from(["scalar", "array64", "array64", "array32", "list"]))
+    form = draw(st.sampled_from(["scalar", "array64", "array64", "array32", "list", "matrix"]))
     return {"r0": r0, "L0": L0, "rel": sorted(rel), "zeros": zeros, "form": form, "k": draw(gen.logfloat(0.2, 5.0))}
 
 
@@ -50,6 +50,10 @@ def sep_body(ctx, case):
     r = np.array([0.0] * case["zeros"] + [x * L0 for x in case["rel"]])
     if form == "scalar":
         r = r[:1]
+    if form == "matrix":
+        # a square, NON-symmetric 2-D array of separations (e.g. cross-separations of two point sets)
+        k_ = max(2, int(math.isqrt(len(r))))
+        r = np.resize(r, k_ * k_).reshape(k_, k_)
     wide = bool(np.any((r > 0) & (r < L0 / 100)) and np.any(r > L0))
     ctx.case(case, nontrivial=wide or bool(np.any(r == 0)), classes=[form, "has_zero" if np.any(r == 0) else "no_zero", "L0_gt_1e5" if L0 > 1e5 else "L0_le_1e5", "wide" if wide else "narrow"])
     B0 = float(vk.B(0.0, r0, L0))
@@ -64,6 +68,18 @@ def sep_body(ctx, case):
         if form == "list" and allow_list:
             return [float(v) for v in a]
         return a.copy()
+
+    if form == "matrix":
+        flat_r = r
+        covm = np.asarray(quiet(turb.phase_covariance, r.copy(), r0, L0), dtype=np.float64)
+        ctx.require(covm.shape == r.shape, "phase_covariance of a 2-D separation array: shape %s" % (covm.shape,))
+        ctx.close(covm, vk.B(r.astype(np.float32).astype(np.float64), r0, L0), 16 * EPS32, "phase_covariance on a square non-symmetric 2-D separation array is element-wise", scale=B0, name="B matrix elementwise")
+        dm = np.asarray(quiet(sc.structure_function_vk, r.copy(), r0, L0), dtype=np.float64)
+        ctx.close(dm, np.asarray(quiet(sc.structure_function_vk, r.ravel().copy(), r0, L0), dtype=np.float64).reshape(r.shape), 1e-15, "structure_function_vk on a 2-D array is element-wise", scale=float(np.max(np.abs(dm))) or 1.0, name="D matrix elementwise")
+        r = r.ravel()
+        Dx = vk.D(r, r0, L0)
+        Bx = vk.B(r, r0, L0)
+        form = "array64"
 
     # --- phase covariance vs the independent closed form (float32 working precision)
     a = arg(r)
